@@ -521,10 +521,12 @@ package pokerface
 //@   modifies @ACTION
 //@   allocs Action, elems(string), elems(Player), settlement.Result
 //@   ensures [C04] !old(hasStr(p.state.AllowedActions, "bet")) ==> err == ErrInvalidAction && UNCH()
-//@   ensures [C12] old(hasStr(p.state.AllowedActions, "bet")) ==> err == nil && AFTERACTION(p.game)
+//@   ensures [C12] old(hasStr(p.state.AllowedActions, "bet")) && chips >= 0 ==> err == nil && AFTERACTION(p.game)
 //@   ensures [C11] old(hasStr(p.state.AllowedActions, "bet")) && 0 < chips && chips < old(p.state.StackSize)
 //@             ==> p.game.gs.Status.CurrentWager == chips && p.state.Wager == chips
 //@   ensures [C12] p.game.gs.Status.CurrentWager >= old(p.game.gs.Status.CurrentWager)
+//@   -- a negative amount is refused and nothing changes (C12: no amount can make a wager, stack or pot negative)
+//@   ensures [C12] chips < 0 ==> err == ErrInvalidAction && UNCH()
 
 //@ func (*player).Raise(p, chipLevel) (err)
 //@   props C04 C12 C01
